@@ -673,6 +673,8 @@ def mutate_fault(rng, levels, want=None):
             return None
         it = pick(rng, cands)
         bad = pick(rng, [b"x", b"301", b"3x", b"99999999999999999999", b"+", b"1.5", b"0x1", b"3000"])
+        if it["attached"] and chance(rng, 0.4):
+            bad = pick(rng, [b"-6", b"-9223372036854775809", b"-", b"--5"])     # below the range / malformed sign
         new = dict(it)
         toks = list(it["toks"])
         if it["attached"]:
@@ -1262,13 +1264,13 @@ def sugg_oracle(stats):
 # =============================================================================== streams
 def streams(tier, rng):
     big = tier == "thorough"
-    n_ff = 30000 if big else 2500
-    n_fault = 60000 if big else 5000
-    n_hv = 10000 if big else 800
-    n_rand = 40000 if big else 3000
-    n_sugg = 30000 if big else 2500
-    n_dym = 20000 if big else 1500
-    n_flag = 20000 if big else 1500
+    n_ff = 90000 if big else 8000
+    n_fault = 180000 if big else 16000
+    n_hv = 30000 if big else 2500
+    n_rand = 100000 if big else 8000
+    n_sugg = 80000 if big else 7000
+    n_dym = 50000 if big else 4000
+    n_flag = 50000 if big else 4000
     out = []
     out.append(Stream("kinds", gen_kinds(rng), oracle=kinds_oracle, area="errors",
                       describe={"variants": source_kind_names()}))
